@@ -31,7 +31,10 @@ PROPS = {
             {"engine": "query", "args": [], "n_quick": 6000, "n_thorough": 400000},
             {"engine": "reply", "args": ["-mode", "seq"], "n_quick": 1200, "n_thorough": 40000, "netns": True},
             {"engine": "reply", "args": ["-mode", "storm"], "n_quick": 12, "n_thorough": 400, "netns": True},
+            {"engine": "reply", "args": ["-mode", "conc"], "n_quick": 1500, "n_thorough": 40000, "netns": True},
+            {"engine": "racestress", "args": [], "n_quick": 5, "n_thorough": 120, "netns": True},
         ],
+        "race_build": True,
         "trivial_tags": [],
         "rule": "structured generator (valid header; 0-3 questions; records in all sections; OPT anywhere with 0-6 options incl. ECS/MAC; "
                 "compression pointers forward/backward/self/chained up to 14; non-OPT additionals) + mutation stream (truncate, flip, splice, "
